@@ -2,13 +2,22 @@
    Both backends are tied, by trace-level correspondence, to ONE model of the DataStore contract (Model/Service.v exec);
    equivalence of the backends is then equality of two runs of the same function.  What needs an argument is the two
    places where the implementations compute differently. *)
-From VZ Require Import Base.Prelude Model.Service Proofs.ServiceP.
+From VZ Require Import Base.Prelude Model.Service Proofs.ServiceP Proofs.ReachP.
 
 (* RAM: next operation number = len(ops)+1.  SQL: max(operation_number)+1.  Equal for operations numbered 1..k *)
 Theorem C07_operation_numbering_agrees : forall l, numbered_from 1 l ->
   N.of_nat (length l) = fold_left (fun m o => N.max m (o_num o)) l 0%N.
 Proof. exact len_eq_max. Qed.
 Print Assumptions C07_operation_numbering_agrees.
+
+(* ... and in every state reachable from the initial state by any sequence of RPCs the operations of every worker ARE
+   numbered 1..k (invariant proved in Proofs/NumberedP.v), so the two numbering schemes agree on all reachable states *)
+Theorem C07_operation_numbering_agrees_on_reachable_states : forall ops k n c,
+  get_node k (nodes (run_all ops init_state)) = Some n ->
+  N.of_nat (length (filter (fun o => N.eqb (o_client o) c) (n_ops n))) =
+  fold_left (fun m o => N.max m (o_num o)) (filter (fun o => N.eqb (o_client o) c) (n_ops n)) 0%N.
+Proof. exact numbering_agrees_reachable. Qed.
+Print Assumptions C07_operation_numbering_agrees_on_reachable_states.
 
 (* the model is a function of the call sequence: two servers fed the same calls and oracle answers agree *)
 Theorem C07_same_calls_same_observations : forall ops s1 s2, s1 = s2 ->
